@@ -61,7 +61,8 @@ configuration (`--optimize` or not).  Compressed-proof decoding is C15.
   `#Notation` statements + the bodies at the constructor entries of their heads (`Ctor.body`; numbering and label table unchanged);
   `FragmentShape` = `CoreShape` of the database without them + `sugarShape` (after the constructor axiom of the head, same
   variables; body over those variables and EARLIER notations; one statement per head, in the order of the constructor axioms;
-  heads applied to exactly their number of arguments everywhere; labels pairwise different).  `spec_without_notations`,
+  heads applied to exactly their number of arguments everywhere; labels pairwise different; no `#Notation` statement for `\imp` /
+  `\app`: `headsPlain`, Props/C16c).  `spec_without_notations`,
   `core_shape_of_sugarFree`, `sugarFree_of_spec_core`; `fragment_shape_notation_example`, `spec_notation_example`,
   `forward_notation_not_in_shape` (kernel evaluation).  The CONVERTER TEXT ties (`converter_*`, `translation_text_*`, Props/C16b
   `translation_*text*`) are for databases WITHOUT `#Notation` statements (hypothesis `ConvTie.InFragment(X)`, which implies it, resp.
